@@ -74,7 +74,7 @@ PROPS["C09"] = dict(
     technique="exhaustive enumeration of key sizes/curves x algorithms x {generate, verify} x providers on the real code",
     level_text=("every oct length 1-160 x HS256/384/512, every pool RSA size (512...4096 incl. 2047/2048/2056, e=3, 33-bit e, RSA-PSS) "
                 "x RS*/PS*, every curve x every ES*, Ed25519/Ed448/X25519 x EdDSA, plus every cross-family pair, for generate and "
-                "for verify of a token made by the reference with the weak key itself; both providers; oct keys of every length are also presented with k padded, over-padded and followed by = plus further text (the floor is judged on the bytes the key really has)"),
+                "for verify of a token made by the reference with the weak key itself; both providers; oct keys of every length are also presented with k padded, over-padded and followed by = plus further text (the floor is judged on the bytes the key really has); seven EC keys on curves outside JOSE (brainpool 256/320/384/512, secp224r1, prime192v1) against every ES algorithm"),
     level_note="the verify token is signed by ref_crypto with the same weak key, so a loosened floor shows up as an acceptance",
     rule=("one cell per (key, algorithm); each cell runs generate and verify; non-trivial = a key at/above the floor that generated "
           "a token which the reference verifies, or whose reference-signed token the library accepts; distinct by cell descriptor"),
@@ -172,7 +172,7 @@ PROPS["C14"] = dict(
                 "configurations; every JWK defect of the C07 single-deviation matrix; every header/claim call of the C15 alphabet at "
                 "depth 2) is run on a fresh object and after every other cause on the same object, with and without error_clear; "
                 "after each call the contract (return value <=> error flag, non-empty message on failure, clean state on success, "
-                "return code == value.error) is checked"),
+                "return code == value.error) is checked; names, string values and JSON text that are not UTF-8 are probed on every receiver for returned code == value.error"),
     level_note="the predicate is the statement itself; no reference model is needed beyond the flag/return relation",
     rule=("cases = (configuration, first cause or fresh, clear?, second cause); evaluations = calls judged; non-trivial = every "
           "executed history (distinct by descriptor); both failing and succeeding calls occur (counters)"),
@@ -210,7 +210,7 @@ PROPS["C07"] = dict(
                 "variants, and for ten JWK templates every member x 16 shapes (thorough: every pair of members x pair of shapes) is "
                 "loaded through the applicable entry points; set error, item count, document order (set vs element-by-element), "
                 "per-item error/message/material and agreement between entry points are judged against jansson's own verdict on "
-                "the text; every imported key is then used for a sign/verify attempt (memory safety only)"),
+                "the text; every imported key is then used for a sign/verify attempt (memory safety only); member shapes include non-ASCII UTF-8 text and leading/embedded = padding"),
     level_note="trusts jansson's json_loadb(JSON_DECODE_ANY) as the definition of 'is JSON'; ASan/UBSan for the crash clause; live-block counts of libjwt+jansson+libcrypto for leaks",
     rule=("evaluations = load calls judged; cases group inputs by family; non-trivial = distinct documents (by content hash) that "
           "produced at least one item; distinct outcomes = (set error, item count) vectors"),
@@ -403,7 +403,7 @@ PROPS["C20"] = dict(
                 "integers up to +-2^63 incl. hex/octal forms, also as a future exp and a past nbf; 9 boolean spellings; 7 strings): "
                 "the payload must carry strtol()'s value and jwt-verify must accept; key2jwk -> jwk2key for every key of the pool in private and public form (leading-zero EC "
                 "keys included) and oct files of 32-512 bytes, comparing the JWK member by member with the harness's own JWK of "
-                "the same PEM (RFC 7518 fixed-width EC members) and the PEM written back with the original; key2jwk is run on every ordered pair (thorough: triple) of key-file kinds (RSA/EC/OKP private and public PEM, raw) and every position must yield what the file yields alone"),
+                "the same PEM (RFC 7518 fixed-width EC members) and the PEM written back with the original; key2jwk is run on every ordered pair (thorough: triple) of key-file kinds (RSA/EC/OKP private and public PEM, raw) and every position must yield what the file yields alone; lists with empty tokens (blank stdin lines, empty arguments) in every good/bad/empty composition of 2-4 tokens"),
     level_note="exit status 0 <=> every token verified is judged against tokens whose validity is known by construction and confirmed one by one",
     rule=("evaluations = tool invocations; cases = one composition family / one spelling combination / one key; non-trivial = cases "
           "whose round trip completed and was compared"),
